@@ -1244,3 +1244,46 @@ Example example_blockfrost_order :
             [(p2, [([], 5%Z)]); (p1, [([x6e], 12%Z); ([], 18446744073709551617%Z)])]
             None (Some (ARaw [xd8; x79; x80])) (Some (SPlutus 2 [x4d; x01; x00]))].
 Proof. vm_compute. reflexivity. Qed.
+
+(* ================================================================ the known finding: Plutus maps as Python dicts (cardano-cli) *)
+Definition u_map_constr_key : utxo_model :=
+  mkU (repeat xab 32) 0 1000000 [] []
+      (DInline (repeat xcc 32) [xa1; xd8; x79; x80; x01] (PMap [(PConstr 0 [], PInt 1)])) None [] false.
+Definition u_map_dup_key : utxo_model :=
+  mkU (repeat xab 32) 0 1000000 [] []
+      (DInline (repeat xcc 32) [xa2; x01; x01; x01; x02] (PMap [(PInt 1, PInt 1); (PInt 1, PInt 2)])) None [] false.
+
+(* outside wf_pdata (map keys that are not ints/bytes, or repeated keys) the cardano-cli adapter raises for the whole
+   query, or silently reports a different datum value (the last duplicate wins) *)
+Lemma cli_datum_map_key_refuted :
+  let H := fun _ : bytes => repeat xee 28 in
+  parse H Cli "addr" (render Cli "addr" [u_map_constr_key]) = Err "TypeError" /\
+  (exists o, parse H Cli "addr" (render Cli "addr" [u_map_dup_key]) = Ok [o] /\
+             a_datum o = Some (AData (YDict [(YInt 1, YInt 2)])) /\
+             pdata_of_pyd (YDict [(YInt 1, YInt 2)]) = Some (PMap [(PInt 1, PInt 2)]) /\
+             PMap [(PInt 1, PInt 2)] <> PMap [(PInt 1, PInt 1); (PInt 1, PInt 2)]).
+Proof.
+  cbv zeta. split; [vm_compute; reflexivity|].
+  eexists. split; [vm_compute; reflexivity|]. split; [reflexivity|]. split; [reflexivity | discriminate].
+Qed.
+
+(* non-vacuity of the wrapped-script premises: a hash that tells the plain from the CBOR-wrapped bytes *)
+Definition H_prefix (b : bytes) : bytes := firstn 28 (b ++ repeat x00 28).
+Definition u_wrapped : utxo_model :=
+  mkU (repeat xab 32) 0 1000000 [] [] (DHash (repeat xdd 32) (Some [x01])) (Some (SPlutus 2 [x4d; x01; x00]))
+      (H_prefix [x02; x4d; x01; x00]) true.
+Example wf_example_wrapped : wf_utxo H_prefix Kupo u_wrapped /\ wf_utxo H_prefix Blockfrost u_wrapped.
+Proof.
+  assert (G : forall x, (x = Kupo \/ x = Blockfrost) -> wf_utxo H_prefix x u_wrapped).
+  { intros x Hx. unfold wf_utxo, u_wrapped. cbn [u_txid u_assets u_flat u_datum u_script].
+    split; [reflexivity|]. split; [split; constructor|]. split; [constructor|].
+    split; [split; [reflexivity | discriminate]|].
+    unfold wf_script. cbn [u_script u_script_hash u_script_wrapped].
+    split; [destruct Hx as [-> | ->]; reflexivity|]. split; [reflexivity|].
+    destruct Hx as [-> | ->]; (split; [reflexivity | split; [reflexivity | intros _; vm_compute; discriminate]]). }
+  split; apply G; auto.
+Qed.
+Example example_wrapped_kupo :
+  parse H_prefix Kupo "addr" (render Kupo "addr" [u_wrapped])
+  = Ok [mkA (repeat xab 32) 0 "addr" 1000000 [] (Some (repeat xdd 32)) (Some (ARaw [x01])) (Some (SPlutus 2 [x4d; x01; x00]))].
+Proof. vm_compute. reflexivity. Qed.
